@@ -295,6 +295,27 @@ PROPS = {
                   "failing writer makes Write return an error; no panic; input untouched",
         "assumptions": COMMON_ASSUMPTIONS + ["readers and writers respect the io.Reader / io.Writer contracts"],
     },
+    "C13": {
+        "test": "TestC13", "variant": "ipa",
+        "quick": {"shards": 16, "timeout": 2400},
+        "thorough": {"shards": 16, "timeout": 14400},
+        "rule": "histories of 5..40 API calls drawn from 23 kinds (Commit of short/long vectors, CreateMultiProof incl. openings "
+                "that share an evaluation index and reused commitment pointers, CheckMultiProof honest and perturbed incl. one "
+                "scalar object used for two claimed values, CreateIPAProof / CheckIPAProof, MultiScalar over a sub-slice of the "
+                "shared SRS, MultiExp in Montgomery and regular scalar form with small scalars, element and batch codecs, "
+                "BatchNormalize with repeated pointers, fr decoders on canonical and non-canonical buffers, BatchInvert, "
+                "barycentric helpers, InnerProd, transcript operations on caller and config objects, group operations whose "
+                "operands are config elements, proof Write/Read/Equal), every argument passed by pointer or slice snapshotted; "
+                "a fixed proving+verifying probe call replayed at 1..3 drawn positions; plus one deterministic history with every "
+                "kind of call per shard. Non-trivial = history containing an aliasing shape (>= 2 openings sharing an index, or a "
+                "reused argument object); distinct by the history.",
+        "oracle": "history invariant: after every call the SHA-256 fingerprint of SRS, Q, weight tables (hook), exported constants "
+                  "(Generator, Identity, bandersnatch.Identity, IdentityExt, CurveParams), label bytes up to capacity (hook) and "
+                  "4096 sampled MSM table entries is unchanged; every caller-supplied input is bit-for-bit unchanged (commitments "
+                  "given to CreateMultiProof must stay the same group element); full 350 MB MSM table fingerprint after every "
+                  "history; the probe returns identical bytes every time",
+        "assumptions": COMMON_ASSUMPTIONS,
+    },
     "C16": {
         "test": "TestC16", "variant": "elem",
         "quick": {"shards": 16, "timeout": 900},
